@@ -1,4 +1,4 @@
 From Coq Require Import Extraction ExtrOcamlBasic.
-From LT Require Import FsModel VtmfVerModel.
+From LT Require Import FsModel VtmfVerModel SkcModel.
 Extraction "model.ml" fs_ser flat_pairs table_hash verdict_code mk_grp key_verify keyint_verify cp_verify mask_verify remask_verify
-  decrypt_verify or_verify.
+  decrypt_verify or_verify mk_pkey test_membership ped_verify mk_skc skc_verify.
